@@ -154,6 +154,27 @@ def generate(R: Draw, tier: str) -> dict:
                 b = p0 + R.int(2, 4)
                 c = R.int(a, b)
                 d = p0 + R.int(max(c - p0, 3), 6)
+        if m2 == m1 and R.bool(0.25):
+            # three runs that differ only in the mark being added / removed ("ab"[m] "cd" "ef"[m]) and two overlapping
+            # ranges whose union covers all three: after the merged step they are one text node
+            doc2 = copy.deepcopy(doc)
+            blocks = [(k_, s_) for k_, s_, _par, _i, _d in RR_all(doc2, rs) if rs.textblock.get(k_.t) and rs.allows_mark(k_.t, m1[0])]
+            if blocks:
+                from ..ref import marks as rm
+
+                k_, s_ = R.choice(blocks)
+                base = [x for x in g.mark_set(R, k_.t, 0.3) if x[0] != m1[0] and not rs.excludes(x[0], m1[0]) and not rs.excludes(m1[0], x[0])]
+                with_m = rm.ref_add(rs, copy.deepcopy(m1), base)
+                if any(x[0] == m1[0] for x in with_m):
+                    k1 = k2 = R.choice(["addMark", "removeMark"])
+                    outer, inner = (with_m, base) if k1 == "addMark" else (base, with_m)
+                    k_.p["c"] = [P.mk("text", {}, None, copy.deepcopy(outer), "ab"), P.mk("text", {}, None, copy.deepcopy(inner), "cd"), P.mk("text", {}, None, copy.deepcopy(outer), "ef")]
+                    doc = doc2
+                    p0 = s_ + 1
+                    a, b = p0 + R.int(0, 1), p0 + R.int(3, 4)
+                    c, d = p0 + R.int(2, 3), p0 + R.int(5, 6)
+                    if R.bool():
+                        a, b, c, d = c, d, a, b
         s1 = {"k": k1, "from": a, "to": b, "mark": m1}
         s2 = {"k": k2, "from": c, "to": d, "mark": m2}
     elif kind == "ops":
